@@ -356,9 +356,11 @@ class RelativeOperand(Operand):
         self.value = value if value else Value.create_from_str(operand_string, instruction)
 
     def translate(self):
+        if not self.value.is_address():
+            raise OperandTypeError("[{}] a branch target must be a label".format(self.operand_string))
         return CodePackage(
             op_code=NumericValue(self.instruction.mode.rel),
-            additional=self.value if self.value.is_address() else NoneValue(),
+            additional=self.value,
             size=self.instruction.mode.rel_sz,
             max_size=self.instruction.mode.rel_sz,
         )
